@@ -149,6 +149,9 @@ func Start(kind string, service *core.Service, pool bool) (*Env, error) {
 			return nil, err
 		}
 		srv := &http.Server{}
+		if h, ok := service.GetHandler("websocket").(*websocket.Handler); ok && kind == "ws" {
+			h.Pool = wp
+		}
 		if err := service.Bind(srv); err != nil {
 			return nil, err
 		}
